@@ -60,6 +60,22 @@ func (pd *PendingData) numPendingData() uint64 {
 	return pd.base.numPending()
 }
 
+// numWaitingData returns how many pending Data items still have to be accepted by the DA layer. Data without
+// transactions is never submitted (createSignedDataToSubmit skips it), so it does not wait; empty items right
+// above the last submitted height are stepped over for good, otherwise an idle chain would count them for ever.
+func (pd *PendingData) numWaitingData(ctx context.Context) uint64 {
+	pending, _ := pd.getPendingData(ctx)
+	waiting := uint64(0)
+	for _, data := range pending {
+		if len(data.Txs) > 0 {
+			waiting++
+		} else if waiting == 0 && data.Metadata != nil {
+			pd.setLastSubmittedDataHeight(ctx, data.Height())
+		}
+	}
+	return waiting
+}
+
 func (pd *PendingData) setLastSubmittedDataHeight(ctx context.Context, newLastSubmittedDataHeight uint64) {
 	pd.base.setLastSubmittedHeight(ctx, newLastSubmittedDataHeight)
 }
